@@ -28,7 +28,9 @@ NEED = {KV + "insert_value": {"insert"}, KV + "remove_value": {"remove_value"},
         KV + "insert_or_replace": {"insert", "remove_value"}, KV + "remove": {"remove_value"}}
 
 
-def run(ctx):
+def index_maintenance_rule(ctx):
+    """R11a (shared with C13: the undo commands restore exactly what the forward step removed only if both sides use
+    the per-(value, id) primitives)."""
     fa = ctx.facts
     n = 0
     for b in sorted(fa.find(r"^agdb::db::DbImpl::[a-z_]+$"), key=lambda x: x.line):
@@ -80,6 +82,11 @@ def run(ctx):
                        "rollback arm `%s` changes key-values (%s) without the matching index update %s" % (
                            vname, [c.split("::")[-1] for c in kvm], sorted(need - have)), "%s:%d" % (rb.file, a["line"]))
     ctx.floor("R11a", "key-value mutation sites with index maintenance", n, 7)
+
+
+def run(ctx):
+    fa = ctx.facts
+    index_maintenance_rule(ctx)
 
     b = ctx.anchor("R11b", DB + "insert_index")
     if b:
